@@ -78,6 +78,16 @@ Definition disc_of_val (v : val) : option Z :=
 (* element types the (de)serializer implements: no nested collections *)
 Definition elem_ok (e : ty) : bool := match e with TSeq _ | TArr _ _ => false | _ => true end.
 
+(* the storage of a collection with element type e (w = "is a value of e") *)
+Definition elems_wt (e : ty) (w : val -> bool) (v : val) : bool :=
+  match e with
+  | TPrim p => match v with VSeqP k l => sk_eqb k (prim_sk p) && forallb (in_range k) l | _ => false end
+  | TStr | TWStr => match v with VSeqStr l => forallb str_ok l | _ => false end
+  | TEnum _ _ | TStruct _ _ | TUnion _ _ _ =>
+    match v with VSeqData l => forallb (fun d => w (VData d)) l | _ => false end
+  | _ => false
+  end.
+
 (* wt t v: v is a value of type t as the code stores it *)
 Fixpoint wt (t : ty) (v : val) {struct t} : bool :=
   match t with
@@ -89,22 +99,8 @@ Fixpoint wt (t : ty) (v : val) {struct t} : bool :=
       sk_eqb k (prim_sk h) && in_range k z && (match ls with [] => true | _ => mem z ls end)
     | _ => false
     end
-  | TSeq e =>
-    (match e with
-     | TPrim p => match v with VSeqP k l => sk_eqb k (prim_sk p) && forallb (in_range k) l | _ => false end
-     | TStr | TWStr => match v with VSeqStr l => forallb str_ok l | _ => false end
-     | TEnum _ _ | TStruct _ _ | TUnion _ _ _ =>
-       match v with VSeqData l => forallb (fun d => wt e (VData d)) l | _ => false end
-     | _ => false
-     end) && (seq_length v <=? u32_max)
-  | TArr n e =>
-    (match e with
-     | TPrim p => match v with VSeqP k l => sk_eqb k (prim_sk p) && forallb (in_range k) l | _ => false end
-     | TStr | TWStr => match v with VSeqStr l => forallb str_ok l | _ => false end
-     | TEnum _ _ | TStruct _ _ | TUnion _ _ _ =>
-       match v with VSeqData l => forallb (fun d => wt e (VData d)) l | _ => false end
-     | _ => false
-     end) && (seq_length v =? n)
+  | TSeq e => elems_wt e (wt e) v && (seq_length v <=? u32_max)
+  | TArr n e => elems_wt e (wt e) v && (seq_length v =? n)
   | TStruct _ ms =>
     match v with
     | VData d =>
@@ -241,3 +237,10 @@ Definition padding_ok (bs : list Z) : bool :=
   (let n := nth 3 bs 0 in
    (0 <=? n) && (n <=? 3) && (4 + n <=? blen bs) &&
    forallb (Z.eqb 0) (skipn (length bs - Z.to_nat n) bs)).
+
+(* S1+S2 in one predicate: no union, no mutable type; in XCDR1 additionally no float128 and no
+   optional member (the three recorded reader defects) *)
+Definition tbad (V : ver) (t : ty) : bool :=
+  is_union t || is_mutable t ||
+  (match V with V1 => is_f128 t || has_opt_member t | V2 => false end).
+Definition tgood (V : ver) (t : ty) : bool := wf_ty t && negb (ty_any (tbad V) t).
